@@ -5,7 +5,8 @@
    the simple cmap/hmtx pipeline); is_default_ignorable and all bit constants are regenerated from
    /repo/src into Gen/Ignorable.v on every run. *)
 From Coq Require Import List NArith ZArith Bool Sorted.
-From RB Require Import Gen.Ignorable Model.Ignorable Proofs.IgnorableP.
+From Coq Require Import String.
+From RB Require Import Gen.Ignorable Model.Ignorable Proofs.IgnorableP Gen.Pipeline Model.Pipeline Proofs.PipelineP.
 Import ListNotations.
 Local Open Scope N_scope.
 
@@ -135,6 +136,28 @@ Theorem C13_preserve_own_glyph : forall ft flags level t,
   simple_shape ft flags level t = shape_chars ft 0 t.
 Proof. exact simple_shape_preserve. Qed.
 Print Assumptions C13_preserve_own_glyph.
+
+(* ---- where the two passes sit in the shaping pipeline (the pass sequence is regenerated from ot_shape.rs on every
+   run, Gen/Pipeline.v): the zeroing runs once, unconditionally, behind every pass that writes advances or offsets from
+   the font's tables (hmtx/vmtx defaults, space fallback, GPOS, kerx, kern, fallback kern, trak, mark zeroing,
+   position_finish_advances); hiding runs once, unconditionally, behind the zeroing and behind the variation-selector
+   pass; and only the listed passes follow the zeroing. *)
+Theorem C13_pipeline_zeroing_follows_positioning : zeroing_order_ok = true.
+Proof. exact zeroing_order_holds. Qed.
+Print Assumptions C13_pipeline_zeroing_follows_positioning.
+
+(* what that order buys, for ANY meaning of the passes: a condition on the buffer that the zeroing pass establishes
+   (the unsubstituted ignorables have zero advance and offset) and that each of the listed later passes preserves
+   holds at the end of shaping, whatever lookups, kerning and tracking did before.  The hypothesis on the later passes
+   is where the model stops: `passes` (above) covers zeroing + hiding themselves; that position_finish_offsets and
+   position_marks leave an ignorable alone is true for unattached glyphs only (known finding
+   gpos_attached_ignorable_keeps_attachment_offset). *)
+Theorem C13_zeroing_survives_the_pipeline : forall (St : Type) (interp : string -> St -> St) (Z : St -> Prop),
+  (forall s, Z (interp zero_pass s)) ->
+  (forall n s, In n passes_allowed_after_zeroing -> Z s -> Z (interp n s)) ->
+  forall s, Z (run St interp (passes_of pipeline) s).
+Proof. exact zeroing_survives. Qed.
+Print Assumptions C13_zeroing_survives_the_pipeline.
 
 (* ---- non-vacuity *)
 Definition ex_font (space : option N) : font :=
